@@ -22,7 +22,8 @@ template <typename M, typename N>
     if (m == 0 or n == 0) {
         return 0;
     }
-    return (m * n) / gcd(m, n);
+    using R = common_type_t<M, N>;
+    return static_cast<R>((static_cast<R>(m) / etl::gcd(m, n)) * static_cast<R>(n));
 }
 
 } // namespace etl
